@@ -9,7 +9,7 @@ import (
 // C09 - require-order stops at the first non-option and hands the rest over verbatim.
 // Relation: Outcome(P ++ [s] ++ T, require-order) == Outcome(P, no require-order) with remaining = [s] ++ T.
 
-var c09Stops = []string{"positional", "unknown-long", "unknown-short", "dash", "hostile-plain", "empty"}
+var c09Stops = []string{"positional", "unknown-long", "unknown-short", "dash", "hostile-plain", "empty", "mixed-bundle"}
 
 func init() {
 	fw.Register(&fw.Check{
@@ -22,8 +22,8 @@ func init() {
 			r := CaseRng(seed, "C09", idx)
 			stopKind := c09Stops[idx%len(c09Stops)]
 			pc := DefaultCfg()
-			pc.Modes = []int{(idx / 6) % 3}
-			pc.Unknowns = []int{(idx / 18) % 3}
+			pc.Modes = []int{(idx / 7) % 3}
+			pc.Unknowns = []int{(idx / 21) % 3}
 			pc.CmdModes = true
 			pc.LonesomeDash = false
 			p := GenProg(r, pc)
@@ -44,6 +44,7 @@ func init() {
 			lastOpen := len(pre.Items) > 0 && pre.Items[len(pre.Items)-1].Open
 			typedOpen := lastOpen && pre.Items[len(pre.Items)-1].K == IMulti && pre.Items[len(pre.Items)-1].Opt.Kind != KStrings
 			var stop string
+			var mixed *Item
 			switch stopKind {
 			case "positional":
 				stop = g.pay.Pos()
@@ -71,6 +72,17 @@ func init() {
 				stop = g.r.Pick(HostilePlain)
 			case "empty":
 				stop = ""
+			case "mixed-bundle":
+				// Bundling: a one-letter option taking a detached value, then an unknown letter: `-ax val`.
+				// The statement does not say whether the known letters before the unknown one count; both readings
+				// are accepted below, but the token must be handed over and `val` must not be both consumed and returned.
+				stop = g.pay.Pos()
+				if p.Mode == 1 {
+					if it := g.genBundleUnk(); it != nil && len(it.Tokens) == 2 {
+						mixed = it
+						stop = it.Tokens[0]
+					}
+				}
 			}
 			// a plain stop token directly after an open item is a value of that option (statement): keep P closed then,
 			// except behind typed multi-value options where an ill-formed element ends the intake.
@@ -102,14 +114,25 @@ func init() {
 				stop = g.pay.Pos()
 			}
 			tail := g.hostileTail(r.Range(0, 5))
+			if mixed != nil {
+				tail = append([]string{mixed.Tokens[1]}, tail...)
+			}
 			full := append(append(append([]string{}, pre.Argv...), stop), tail...)
 
-			pRO := *p
-			pRO.ReqOrder = true
-			// every command inherits require-order from the root at creation
+			// require-order either on the root (every command inherits it at creation) or, wrapper style,
+			// only on the command the stop token is given at
+			pROp := CloneProg(p)
+			where := "root"
+			if c := pROp.CmdAt(g.node.Path); idx%3 == 2 && g.node.Path != "" && c != nil {
+				c.ReqOrder = true
+				where = "command-only"
+			} else {
+				pROp.ReqOrder = true
+			}
+			pRO := *pROp
 			expP := Fold(t, pre)
 			doc := &CaseDoc{Prog: &pRO, Argv: full, Items: pre.Items, Note: "stop=" + stopKind}
-			res := &fw.Result{Sample: doc, Cells: append(scenCells(pre, ""), "stop="+stopKind, fmt.Sprintf("last_item_open=%v", lastOpen && !IsPlain(stop) || typedOpen))}
+			res := &fw.Result{Sample: doc, Cells: append(scenCells(pre, ""), "stop="+stopKind, "require_order_on="+where, fmt.Sprintf("last_item_open=%v", lastOpen && !IsPlain(stop) || typedOpen))}
 
 			bP := Build(p)
 			ocP := bP.RunParse(pre.Argv)
@@ -146,11 +169,36 @@ func init() {
 					d = append(d, fmt.Sprintf("tokens behind the stop point caused an error: %s", ocR.Err))
 				} else {
 					want := append(append(append([]string{}, ocP.Remaining...), stop), tail...)
-					if !eqStrs(ocR.Remaining, want) {
-						d = append(d, fmt.Sprintf("remaining %q, expected stop token and tail verbatim %q", ocR.Remaining, want))
-					}
-					if x, y := optState(ocP), optState(ocR); !eqStrs(x, y) {
-						d = append(d, fmt.Sprintf("option state differs from parsing P alone: %v", listDiff(y, x)))
+					if mixed != nil {
+						// reading 1: the whole bundle is the stop token (nothing of it counts); reading 2: the known letters
+						// before the unknown one count and the value token is consumed
+						want2 := append(append(append([]string{}, ocP.Remaining...), stop), tail[1:]...)
+						var val *Item
+						for _, fl := range mixed.Flags {
+							if fl.K == IValued {
+								val = fl
+							}
+						}
+						got := ocR.Opts[g.node.Path+"|"+val.Key]
+						switch {
+						case eqStrs(ocR.Remaining, want):
+							if got.Val == Enc(mustConv(val.Opt.Kind, val.Vals[0])) && got.Val != ocP.Opts[g.node.Path+"|"+val.Key].Val {
+								d = append(d, fmt.Sprintf("value token %q is both stored in option %q and returned in remaining %q", val.Vals[0], val.Key, ocR.Remaining))
+							}
+						case eqStrs(ocR.Remaining, want2):
+							if got.Val != Enc(mustConv(val.Opt.Kind, val.Vals[0])) {
+								d = append(d, fmt.Sprintf("value token %q is neither stored in option %q (%s) nor returned in remaining %q", val.Vals[0], val.Key, got.Val, ocR.Remaining))
+							}
+						default:
+							d = append(d, fmt.Sprintf("remaining %q: expected the bundle with the unknown letter and everything after it verbatim: %q (or %q when the known letters before the unknown one are counted)", ocR.Remaining, want, want2))
+						}
+					} else {
+						if !eqStrs(ocR.Remaining, want) {
+							d = append(d, fmt.Sprintf("remaining %q, expected stop token and tail verbatim %q", ocR.Remaining, want))
+						}
+						if x, y := optState(ocP), optState(ocR); !eqStrs(x, y) {
+							d = append(d, fmt.Sprintf("option state differs from parsing P alone: %v", listDiff(y, x)))
+						}
 					}
 					if fmt.Sprint(callNodes(ocP.Calls)) != fmt.Sprint(callNodes(ocR.Calls)) {
 						d = append(d, fmt.Sprintf("command selected differs: %v vs %v", callNodes(ocP.Calls), callNodes(ocR.Calls)))
@@ -181,4 +229,9 @@ func init() {
 			return res
 		},
 	})
+}
+
+func mustConv(k Kind, v string) interface{} {
+	x, _ := ConvVal(k, v)
+	return x
 }
